@@ -429,7 +429,7 @@ def coq_type(t):
         return 'String.string'
     if t == T_RES:
         return 'res C'
-    if t[0] in ('L', 'S'):
+    if t[0] in ('L', 'S', 'U'):
         return 'list (%s)' % coq_type(t[1])
     if t[0] == 'O':
         return 'option (%s)' % coq_type(t[1])
@@ -539,7 +539,10 @@ class TX:
             k, v = self.expr(e.key, env2), self.expr(e.value, env2)
             if k[1] not in (T_C, T_Z):
                 die(e, 'dictionary keyed by a %s' % (k[1],))
-            return '(py_dict_%s (map (fun it_ => %s(%s, %s)) %s))' % ('c' if k[1] == T_C else 'z', pre, k[0], v[0], it), TL(TP(k[1], v[1]))
+            dty = TP(k[1], v[1])
+            # built from a set: the insertion order is arbitrary - only lookups (d[k], d.get) are meaningful ('U')
+            return ('(py_dict_%s (map (fun it_ => %s(%s, %s)) %s))' % ('c' if k[1] == T_C else 'z', pre, k[0], v[0], it),
+                    ('U', dty) if self.is_unordered(g.iter, env) else TL(dty))
         if isinstance(e, ast.BinOp):
             a, b = self.expr(e.left, env), self.expr(e.right, env)
             if isinstance(e.op, ast.Add) and a[1][0] == 'L' and a[1] == b[1]:
@@ -603,7 +606,7 @@ class TX:
                     return '(py_slice_to %s %s)' % (a[0], n[0]), a[1]
             if not isinstance(sl, ast.Slice):
                 a, k = self.expr(e.value, env), self.expr(sl, env)
-                if a[1][0] == 'L' and a[1][1][0] == 'P' and a[1][1][1] == k[1] and k[1] in (T_C, T_Z):
+                if a[1][0] in ('L', 'U') and a[1][1][0] == 'P' and a[1][1][1] == k[1] and k[1] in (T_C, T_Z):
                     vt = a[1][1][2]
                     if vt[0] in ('L', 'S'):
                         dflt = '[]'
@@ -647,36 +650,59 @@ class TX:
         """bind a comprehension / loop target to the items of an iterable; returns (env', prefix of lets)"""
         env = dict(env)
         if isinstance(target, ast.Name):
-            env[target.id] = (self.ident(target.id), elt_type)
-            return env, 'let %s := %s in ' % (self.ident(target.id), var)
+            nm = self.newname(env, target.id)
+            env[target.id] = (nm, elt_type)
+            return env, 'let %s := %s in ' % (nm, var)
         if isinstance(target, ast.Tuple) and len(target.elts) == 2 and all(isinstance(x, ast.Name) for x in target.elts) \
                 and elt_type[0] == 'P':
             a, b = target.elts[0].id, target.elts[1].id
             pre = ''
             if a != '_':
-                env[a] = (self.ident(a), elt_type[1])
-                pre += 'let %s := fst %s in ' % (self.ident(a), var)
+                nm = self.newname(env, a)
+                env[a] = (nm, elt_type[1])
+                pre += 'let %s := fst %s in ' % (nm, var)
             if b != '_':
-                env[b] = (self.ident(b), elt_type[2])
-                pre += 'let %s := snd %s in ' % (self.ident(b), var)
+                nm = self.newname(env, b)
+                env[b] = (nm, elt_type[2])
+                pre += 'let %s := snd %s in ' % (nm, var)
             return env, pre
         die(node, 'loop target')
 
+    # Coq keywords and every global name the translator emits: a Python variable with such a name is renamed
     RESERVED = {'at', 'as', 'in', 'if', 'then', 'else', 'fun', 'let', 'match', 'with', 'end', 'fix', 'cofix', 'forall', 'exists',
-                'Type', 'Prop', 'Set', 'return', 'where', 'for', 'using', 'pair', 'fst', 'snd', 'map', 'filter', 'list', 'nat', 'Z', 'Q',
-                'C', 'cons', 'nil', 'bool', 'true', 'false', 'inl', 'inr', 'sum', 'seq', 'repeat', 'length', 'it_'}
+                'Type', 'Prop', 'Set', 'return', 'where', 'for', 'using', 'pair', 'fst', 'snd', 'map', 'filter', 'flat_map', 'list',
+                'nat', 'Z', 'Q', 'C', 'cons', 'nil', 'bool', 'true', 'false', 'inl', 'inr', 'sum', 'seq', 'repeat', 'length', 'app',
+                'Some', 'None', 'option', 'negb', 'andb', 'orb', 'inject_Z', 'cmem', 'sort_desc', 'Qle_bool', 'get_n_best', 'res',
+                'unit', 'tt', 'String', 'string', 'pyexn', 'it_'}
 
     def ident(self, name):
-        name = name.lstrip('_') or 'x'
-        if not re.fullmatch(r'[A-Za-z][A-Za-z0-9_]*', name):
+        """Coq identifier for a Python name: injective (a name that had to be changed carries a quote, which no Python
+           identifier contains)"""
+        k = len(name) - len(name.lstrip('_'))
+        base = name.lstrip('_') or 'x'
+        if not re.fullmatch(r'[A-Za-z][A-Za-z0-9_]*', base):
             raise Unsupported('identifier %r' % name)
-        return name + '_' if (name in self.RESERVED or name.startswith('py_')) else name
+        if k:
+            return "%s'u%d" % (base, k)
+        if base in self.RESERVED or re.fullmatch(r'py_.*|Py.*|it\d*_', base) or base in {v['coq'] for v in self.known.values()}:
+            return base + "'"
+        return base
+
+    def newname(self, env, ref):
+        """name for a new binding of the Python reference `ref`: never captures another reference that is still in scope"""
+        base = self.ident(ref.replace('self.', 'self_'))
+        used = {t for r2, (t, _) in env.items() if r2 != ref and isinstance(t, str)}
+        nm, n = base, 0
+        while nm in used:
+            n += 1
+            nm = "%s'%d" % (base, n)
+        return nm
 
     def iterable(self, e, env):
         """(coq list text, element type) of something iterated over"""
         if isinstance(e, ast.Call) and isinstance(e.func, ast.Attribute) and e.func.attr == 'items' and not e.args and not e.keywords:
             t, ty = self.expr(e.func.value, env)
-            if ty[0] == 'L' and ty[1][0] == 'P':
+            if ty[0] in ('L', 'U') and ty[1][0] == 'P':
                 return t, ty[1]
             die(e, '.items() of a %s' % (ty,))
         t, ty = self.expr(e, env)
@@ -698,12 +724,26 @@ class TX:
         if g.ifs:
             c = ' && '.join(self.cond(x, env2) for x in g.ifs)
             src = '(filter (fun %s => %s%s) %s)' % (var, pre, c if len(g.ifs) == 1 else '(%s)' % c, it)
+        unordered = self.is_unordered(g.iter, env)
         if len(generators) == 1:
             t, ty = self.expr(elt, env2)
-            self._comp_type = TL(ty)
+            self._comp_type = TS(ty) if unordered else TL(ty)
             return '(map (fun %s => %s%s) %s)' % (var, pre, t, src)
         inner = self.comp(elt, generators[1:], env2, node, depth + 1)
+        if unordered:
+            self._comp_type = TS(self._comp_type[1])
         return '(flat_map (fun %s => %s%s) %s)' % (var, pre, inner, src)
+
+    def is_unordered(self, it, env):
+        """the iterable is a set (or an unordered dictionary): its iteration order is not translated"""
+        try:
+            if isinstance(it, ast.Call) and isinstance(it.func, ast.Attribute) and it.func.attr in ('items', 'values', 'keys'):
+                ty = self.expr(it.func.value, env)[1]
+            else:
+                ty = self.expr(it, env)[1]
+        except Unsupported:
+            return False
+        return ty[0] in ('S', 'U')
 
     def call(self, e, env):
         fn = e.func
@@ -783,12 +823,12 @@ class TX:
             die(e, 'observer %s of a %s' % (fn.attr, v[1]))
         if isinstance(fn, ast.Attribute) and fn.attr == 'values' and not args and not kw:
             a = self.expr(fn.value, env)
-            if a[1][0] == 'L' and a[1][1][0] == 'P':
-                return '(map snd %s)' % a[0], TL(a[1][1][2])
+            if a[1][0] in ('L', 'U') and a[1][1][0] == 'P':
+                return '(map snd %s)' % a[0], (TL if a[1][0] == 'L' else TS)(a[1][1][2])
             die(e, 'values of a %s' % (a[1],))
         if isinstance(fn, ast.Attribute) and fn.attr == 'get' and len(args) == 2 and not kw:
             a, k, dv = self.expr(fn.value, env), self.expr(args[0], env), self.expr(args[1], env)
-            if a[1][0] == 'L' and a[1][1][0] == 'P' and a[1][1][1] == k[1] and k[1] in (T_C, T_Z) and a[1][1][2] == dv[1]:
+            if a[1][0] in ('L', 'U') and a[1][1][0] == 'P' and a[1][1][1] == k[1] and k[1] in (T_C, T_Z) and a[1][1][2] == dv[1]:
                 return '(py_get_%s %s %s %s)' % ('c' if k[1] == T_C else 'z', a[0], k[0], dv[0]), dv[1]
             die(e, 'get on a %s with a %s key and a %s default' % (a[1], k[1], dv[1]))
         if name in ('frozenset', 'set') and len(args) == 1 and not kw and not isinstance(args[0], ast.GeneratorExp):
@@ -875,7 +915,7 @@ class TX:
                 die(s, 'unknown name')
             env = dict(env)
             t, ty = self.expr(item, env)
-            nm = self.ident(r.replace('self.', 'self_'))
+            nm = self.newname(env, r)
             if env[r][1] == 'EMPTYLIST':
                 env[r] = (nm, TL(ty))
                 self.fresh.add(r)
@@ -930,7 +970,7 @@ class TX:
             if self.reach is not None and r == self.reach:
                 self.ret_type = TO(ty)
                 return '(Some %s)' % t       # extraction stops here
-            nm = self.ident(r.replace('self.', 'self_'))
+            nm = self.newname(env, r)
             env[r] = (nm, ty)
             if isinstance(v, (ast.ListComp, ast.List, ast.BinOp)) or (isinstance(v, ast.Subscript) and isinstance(v.slice, ast.Slice)):
                 self.fresh.add(r)
@@ -990,7 +1030,7 @@ class TX:
             r = self.ref(test.left)
             text, ty = env[r]
             some = dict(env)
-            inner = self.ident(r.replace('self.', 'self_')) + '_v'
+            inner = self.newname(env, r + '_v')
             some[r] = (inner, ty[1])
             if isinstance(test.ops[0], ast.IsNot):
                 return (lambda a, b: '(match %s with Some %s => %s | None => %s end)' % (text, inner, a, b)), some, env
@@ -1065,7 +1105,7 @@ class TX:
         fb = r in self.fresh or (not s.orelse and env[r][1] == 'EMPTYLIST')
         if 'ty' not in res:
             die(s, 'conditional update of %s gives it no value' % r)
-        nm = self.ident(r.replace('self.', 'self_'))
+        nm = self.newname(env, r)
         env = dict(env)
         env[r] = (nm, res['ty'])
         (self.fresh.add if (fa and fb) else self.fresh.discard)(r)
@@ -1097,9 +1137,9 @@ class TX:
                 got['ty'] = ty
                 return t
             inner = self.block(body[:-1], env2, fin)
-            nm = self.ident(x)
+            nm = self.newname(env, x)
             env = dict(env)
-            env[x] = (nm, TL(got['ty']))
+            env[x] = (nm, (TS if self.is_unordered(s.iter, env) else TL)(got['ty']))
             self.fresh.add(x)
             return 'let %s := (map (fun it_ => %s%s) %s) in\n  %s' % (nm, pre, inner, it, self.block(rest, env, final))
         # D = {} [S = set()] ... for k, v in src.items(): if c: D[k] = v [else: S.add(k)]
@@ -1131,8 +1171,8 @@ class TX:
                 die(s, 'accumulator read inside its own loop')
             env2, pre = self.bind_target(s.target, 'it_', ety, env, s)
             c = self.cond(iff.test, env2)
-            nm = self.ident(d)
-            env[d] = (nm, TL(ety))
+            nm = self.newname(env, d)
+            env[d] = (nm, ('U', ety) if self.is_unordered(s.iter, env) else TL(ety))
             return 'let %s := (filter (fun it_ => %s%s) %s) in\n  %s' % (nm, pre, c, it, self.block(rest, env, final))
         die(s, 'for loop')
 
